@@ -88,23 +88,25 @@ func (b *payPerInterval) OnUpdate(node store.Node, peers []store.Node) (store.Ba
 		total.Add(total, credit)
 	}
 
-	// If this comparison is in the wrong place, it could make the pool
-	// insolvent. On the other hand, if we compare too early, then the client
-	// could get into a loop where it disconnects due to low balance, connects
-	// successfully, repeat.
-	if b.MinBalance != nil && b.MinBalance.Cmp(total) > 0 {
-		return store.Balance{}, LowBalanceError{
-			CurrentBalance: total,
-			MinBalance:     b.MinBalance,
-		}
-	}
-
 	if err := b.Store.AddNodeBalance(node.ID, new(big.Int).Neg(total)); err != nil {
 		return store.Balance{}, err
 	}
 	balance, err := b.Store.GetNodeBalance(node.ID)
 	if err != nil {
 		return balance, err
+	}
+
+	// If this comparison is in the wrong place, it could make the pool
+	// insolvent. On the other hand, if we compare too early, then the client
+	// could get into a loop where it disconnects due to low balance, connects
+	// successfully, repeat.
+	// The client has been charged at this point, so we compare its actual
+	// spendable balance (the same sum OnClient checks) against the minimum.
+	if spendable := new(big.Int).Add(&balance.Credit, &balance.Deposit); b.MinBalance != nil && b.MinBalance.Cmp(spendable) > 0 {
+		return store.Balance{}, LowBalanceError{
+			CurrentBalance: spendable,
+			MinBalance:     b.MinBalance,
+		}
 	}
 
 	return b.Store.GetNodeBalance(node.ID)
